@@ -104,6 +104,20 @@ theorem path_through_module_names_member (p : Pkg) (m : Nat) (blocks : List Tabl
     | none => simp [hm] at h
     | some e' => exact ⟨e', rfl, member_declared p i x e' hm⟩
 
+/-- the hypotheses of `path_through_module_names_member` are satisfiable: `m1.f1` written in the root -/
+example : ∃ e, lexical ⟨[⟨0, none, [], []⟩, ⟨1, some 0, [.fn 1], []⟩], []⟩ 0 [] [] (.mod 1) = some (.module 1) ∧
+    resolve ⟨[⟨0, none, [], []⟩, ⟨1, some 0, [.fn 1], []⟩], []⟩ 0 [] [] [.mod 1, .fn 1] = some e :=
+  ⟨.item 1 (.fn 1), by decide, by decide⟩
+
+/-- `super.f0` written in a child: a path after `super` that does denote something -/
+example : afterSuper ⟨[⟨0, none, [.fn 0], []⟩, ⟨1, some 0, [], [[.sup, .fn 0]]⟩], []⟩ 0 [.fn 0] = some (.item 0 (.fn 0)) := by
+  decide
+
+/-- a module with an import has the same members as without it -/
+example : member ⟨[⟨0, none, [.fn 0], [[.mod 1, .fn 1]]⟩, ⟨1, some 0, [.fn 1], []⟩], []⟩ 0 (.fn 1) = none
+    ∧ member ⟨[⟨0, none, [.fn 0], [[.mod 1, .fn 1]]⟩, ⟨1, some 0, [.fn 1], []⟩], []⟩ 0 (.fn 0) = some (.item 0 (.fn 0)) := by
+  decide
+
 /-! ### the seeded defect's shape, decided by the rule
 
   `pkg` { m1 declares f1; m2 only imports it }: `m1.f1` is in scope in `pkg`,
